@@ -16,3 +16,153 @@ Theorem C04_sim_check_sound : forall lm f g,
   forall t, traces f t -> exists t', traces g t' /\ Forall2 (ematch sexp lm) t t'.
 Proof. exact sim_check_sound. Qed.
 Print Assumptions C04_sim_check_sound.
+
+(* ------------------------------------------------------------------------------------------------
+   The export side: what the repairs of the export findings (findings.d/C04.json, design.d/FIX_*.md)
+   achieve, on the model of the exporter (Exp/ToRows.v, tied to FlowContainer.to_rows by C17's
+   correspondence) for ALL flows.  The model mirrors the finding's behaviour and the repaired one,
+   selected by probes regenerated from the tree under check (translator/tables_c04.py):
+   [..._repaired] theorems have the probe as premise, [..._witness] theorems are decided by it
+   (if probe then the repaired outcome else the recorded defect). *)
+From RPFT Require Import Base.PyStr Base.Result Gen.Tables Exp.ToRows Exp.ToRowsFixFacts Exp.EdgePadding.
+From RPFT Require Import Cell.Cell Row.Ty Row.FlowRow Row.FlowRowFacts Row.WebhookHeadersFacts.
+
+(* ---- group-split-without-cases: the export of a router node no longer fails *)
+Theorem C04_switch_node_rows_total_repaired :
+  group_split_without_cases_exports = true ->
+  forall (U : Type) (n : node U) (r : srouter U) sn (pe : edge U (tid U)),
+    n_kind n = NRouter U KSwitch r -> n_actions n = [] -> group_split_wf U r = true ->
+    exists row, initiate_row_models n sn pe = Ok [row] /\ r_id row = TNode (n_uuid n) sn /\ r_edges row = [pe].
+Proof. intros H U. exact (switch_node_rows_total_repaired U H). Qed.
+Print Assumptions C04_switch_node_rows_total_repaired.
+
+Theorem C04_group_split_witness :
+  if group_split_without_cases_exports
+  then rmap (map (fun r => r_type r)) (to_rows N.eqb false w_group_split_flow)
+       = Ok [f_split_by_group; f_send_message]
+  else to_rows N.eqb false w_group_split_flow = Err ECrash.
+Proof. exact group_split_witness. Qed.
+Print Assumptions C04_group_split_witness.
+
+(* ---- split-result-name-lost: for every flow, every split row of the sheet carries the result name of its node *)
+Theorem C04_to_rows_keeps_save_name_repaired :
+  split_rows_carry_save_name = true ->
+  forall (U : Type) (ueqb : U -> U -> bool) nb (nodes : list (node U)) rows, to_rows ueqb nb nodes = Ok rows ->
+    forall r, In r rows -> is_split_type (r_type r) = true ->
+      exists n s, In n nodes /\ assoc_str f_node_uuid (r_pay r) = Some (PU (n_uuid n))
+                  /\ split_result U n = Some s /\ assoc_str f_save_name (r_pay r) = Some (PS s).
+Proof. intros H U ueqb. exact (to_rows_keeps_save_name_repaired U ueqb H). Qed.
+Print Assumptions C04_to_rows_keeps_save_name_repaired.
+
+Theorem C04_save_name_witness :
+  rmap (map (fun r => assoc_str f_save_name (r_pay r))) (to_rows N.eqb false w_result_flow)
+  = Ok [ (if split_rows_carry_save_name then Some (PS w_res) else None); None ].
+Proof. exact save_name_witness. Qed.
+Print Assumptions C04_save_name_witness.
+
+(* ---- cases-sharing-a-category: one pair per case, in case order *)
+Theorem C04_switch_pairs_one_per_case_repaired :
+  pairs_follow_cases = true ->
+  forall (U : Type) (ueqb : U -> U -> bool) (r : srouter U) last prs, switch_pairs ueqb r last = Ok prs ->
+    exists cps rest, prs = cps ++ rest
+      /\ Forall2 (pair_of_case U ueqb r last (all_categories r))
+                 (filter (has_category U ueqb (all_categories r)) (sw_cases r)) cps
+      /\ (rest = noresp_pairs r last
+          \/ rest = (c_dest (sw_default r), {| e_from := last; e_cond := no_cond |}) :: noresp_pairs r last).
+Proof. intros H U ueqb. exact (switch_pairs_one_per_case_repaired U ueqb H). Qed.
+Print Assumptions C04_switch_pairs_one_per_case_repaired.
+
+Theorem C04_cases_sharing_witness :
+  rmap (map (fun p => cd_value (e_cond (snd p)))) (switch_pairs N.eqb w_shared_router TStart)
+  = Ok (if pairs_follow_cases then [PS w_yes; PS w_maybe; PS w_ok; PS []] else [PS w_yes; PS w_maybe; PS []]).
+Proof. exact cases_sharing_witness. Qed.
+Print Assumptions C04_cases_sharing_witness.
+
+(* ---- unconnected-non-default-category: no edge of an exported node is lost *)
+Theorem C04_to_rows_keeps_conditions :
+  forall (U : Type) (ueqb : U -> U -> bool), (forall a b, ueqb a b = true <-> a = b) ->
+  forall nb (nodes : list (node U)) st rows,
+  to_rows_state U ueqb nodes = Ok st -> to_rows ueqb nb nodes = Ok rows ->
+  forall m, is_node U ueqb nodes m -> In (n_uuid m) (st_done st) ->
+  exists sn prs, short_name m = Ok sn /\ exit_edge_pairs ueqb m (last_row_id m sn) = Ok prs
+    /\ forall p, In p prs -> kept U (node_keep U m) p = true -> In (e_cond (snd p)) (conds_of U rows).
+Proof. exact to_rows_keeps_conditions. Qed.
+Print Assumptions C04_to_rows_keeps_conditions.
+
+Theorem C04_no_case_is_lost_repaired :
+  loose_exit_rows = true -> pairs_follow_cases = true ->
+  forall (U : Type) (ueqb : U -> U -> bool), (forall a b, ueqb a b = true <-> a = b) ->
+  forall nb (nodes : list (node U)) st rows, to_rows_state U ueqb nodes = Ok st -> to_rows ueqb nb nodes = Ok rows ->
+  forall m (r : srouter U), is_node U ueqb nodes m -> In (n_uuid m) (st_done st) -> n_kind m = NRouter U KSwitch r ->
+  forall k c cd, In k (sw_cases r) -> case_category U ueqb (all_categories r) k = Some c ->
+    case_cond r k c = Ok cd -> cond_blank cd = false -> In cd (conds_of U rows).
+Proof. intros H1 H2 U ueqb Hs. exact (no_case_is_lost_repaired U ueqb Hs H1 H2). Qed.
+Print Assumptions C04_no_case_is_lost_repaired.
+
+Theorem C04_unconnected_case_witness :
+  rmap (map (fun r => (r_id r, r_type r, map (fun e => cd_value (e_cond e)) (r_edges r)))) (to_rows N.eqb false w_unconnected_flow)
+  = Ok (if loose_exit_rows then w_unconnected_rows_repaired else w_unconnected_rows_defect).
+Proof. exact unconnected_case_witness. Qed.
+Print Assumptions C04_unconnected_case_witness.
+
+Example C04_no_case_is_lost_nonvacuous :
+  exists st rows, to_rows_state N N.eqb w_unconnected_flow = Ok st /\ to_rows N.eqb false w_unconnected_flow = Ok rows
+                  /\ map (fun n => match find_node N.eqb w_unconnected_flow (n_uuid n) with Some _ => true | None => false end)
+                         w_unconnected_flow = [true; true]
+                  /\ st_done st = [1%N; 2%N].
+Proof. exact no_case_is_lost_nonvacuous. Qed.
+Print Assumptions C04_no_case_is_lost_nonvacuous.
+
+(* ---- padded-edge-columns: the blank edge cells of a rectangular sheet are inert for every kind of row *)
+Theorem C04_exported_edges_survive_padding_repaired :
+  blank_edges_dropped = true ->
+  forall (U : Type) k w (es : list (edge U str)), es <> [] -> Forall (fun e => nonempty (e_from e) = true) es ->
+    applied_edges k (pad w es) = es.
+Proof. intros H U. exact (exported_edges_survive_padding_repaired U H). Qed.
+Print Assumptions C04_exported_edges_survive_padding_repaired.
+
+Theorem C04_padded_goto_witness :
+  applied_edges KOther (pad 2 [w_goto_edge]) = if blank_edges_dropped then [w_goto_edge] else [w_goto_edge; blank_edge].
+Proof. exact padded_goto_witness. Qed.
+Print Assumptions C04_padded_goto_witness.
+
+(* ---- webhook-headers: packed into one cell the headers are inside the proved row round trip *)
+Theorem C04_webhook_headers_witness :
+  if webhook_headers_packed
+  then flow_dom (hook_row w_headers) = true
+       /\ match flow_unparse (hook_row w_headers) false with
+          | Ok cells => headers_cell cells = Some w_headers_cell /\ spread_cells cells = []
+                        /\ flow_parse cells = Ok (hook_row w_headers)
+          | Err _ => False
+          end
+  else flow_dom (hook_row w_headers) = false
+       /\ match flow_unparse (hook_row w_headers) false with
+          | Ok cells => headers_cell cells = None /\ List.length (spread_cells cells) = 4%nat
+                        /\ is_ok (flow_parse cells) = false
+          | Err _ => False
+          end.
+Proof. exact webhook_headers_witness. Qed.
+Print Assumptions C04_webhook_headers_witness.
+
+Theorem C04_webhook_row_roundtrip : forall hs,
+  flow_dom (hook_row hs) = true ->
+  exists cells, flow_unparse (hook_row hs) false = Ok cells /\ flow_parse cells = Ok (hook_row hs).
+Proof. exact webhook_row_roundtrip. Qed.
+Print Assumptions C04_webhook_row_roundtrip.
+
+(* ---- has_group-edge-outside-group-split (compile side): a has_group case made from an edge always names its group *)
+From RPFT Require Import Exp.CaseArgs.
+Theorem C04_has_group_edge_arguments_repaired :
+  has_group_edges_by_name = true ->
+  forall row_type cond_type value,
+    edge_case_type row_type cond_type = t_has_group ->
+    edge_case_arguments row_type cond_type value = [None; Some value].
+Proof. exact has_group_edge_arguments_repaired. Qed.
+Print Assumptions C04_has_group_edge_arguments_repaired.
+
+Theorem C04_has_group_edge_witness :
+  recorded_group_name (edge_case_type t_wait_for_response t_has_group)
+                      (edge_case_arguments t_wait_for_response t_has_group w_my_group)
+  = if has_group_edges_by_name then Some (Some w_my_group) else None.
+Proof. exact has_group_edge_witness. Qed.
+Print Assumptions C04_has_group_edge_witness.
